@@ -179,6 +179,8 @@ def seeded_cases(prop: str) -> List[Dict[str, Any]]:
             continue
         with open(mp, "r", encoding="utf-8") as f:
             meta = json.load(f)
+        if meta.get("retired"):
+            continue   # the defect it seeded can no longer arise on HEAD (a later fix removed its precondition); kept for the record
         for det in meta.get("detected_by", []):
             if det.get("property") == prop:
                 out.append({"id": "seeded:" + d, "patch": pp, "expect": det.get("rule")})
